@@ -45,10 +45,10 @@ type Conflict struct {
 func FindConflicts(entries []RouteEntry) []Conflict {
 	root := newTrieNode()
 	var conflicts []Conflict
-	seen := map[string]bool{}
+	seen := map[conflictKey]bool{}
 
 	for i := range entries {
-		entry := entries[i]
+		entry := &entries[i]
 		normPath := normalizePath(entry.Path)
 		newSegments := splitSegments(normPath)
 
@@ -78,10 +78,10 @@ func FindConflicts(entries []RouteEntry) []Conflict {
 		// endpoint (method-aware)
 		existing := curr.endpoint[entry.Method]
 		if existing != nil {
-			addConflict(&conflicts, seen, entry, *existing, "duplicate method/path combination")
+			addConflict(&conflicts, seen, entry, existing, "duplicate method/path combination")
 		} else {
 			// register endpoint for this method
-			curr.endpoint[entry.Method] = &entries[i]
+			curr.endpoint[entry.Method] = entry
 		}
 	}
 
@@ -172,9 +172,9 @@ func collectEndpointsByMethod(n *trieNode, method string) []*RouteEntry {
 
 func reportParamVsLiterals(
 	conflicts *[]Conflict,
-	seen map[string]bool,
+	seen map[conflictKey]bool,
 	curr *trieNode,
-	entry RouteEntry,
+	entry *RouteEntry,
 	newSegments []string,
 	seg string,
 ) {
@@ -198,16 +198,16 @@ func reportParamVsLiterals(
 				ep.Method,
 				ep.Path,
 			)
-			addConflict(conflicts, seen, entry, *ep, reason)
+			addConflict(conflicts, seen, entry, ep, reason)
 		}
 	}
 }
 
 func reportParamVsParam(
 	conflicts *[]Conflict,
-	seen map[string]bool,
+	seen map[conflictKey]bool,
 	curr *trieNode,
-	entry RouteEntry,
+	entry *RouteEntry,
 	newSegments []string,
 	idx int,
 	seg string,
@@ -230,15 +230,15 @@ func reportParamVsParam(
 			ep.Method,
 			ep.Path,
 		)
-		addConflict(conflicts, seen, entry, *ep, reason)
+		addConflict(conflicts, seen, entry, ep, reason)
 	}
 }
 
 func reportLiteralVsParam(
 	conflicts *[]Conflict,
-	seen map[string]bool,
+	seen map[conflictKey]bool,
 	curr *trieNode,
-	entry RouteEntry,
+	entry *RouteEntry,
 	newSegments []string,
 	idx int,
 	seg string,
@@ -261,23 +261,28 @@ func reportLiteralVsParam(
 			ep.Method,
 			ep.Path,
 		)
-		addConflict(conflicts, seen, entry, *ep, reason)
+		addConflict(conflicts, seen, entry, ep, reason)
 	}
 }
 
-func addConflict(out *[]Conflict, seen map[string]bool, a RouteEntry, b RouteEntry, reason string) {
-	aPath, bPath := a.Path, b.Path
+// conflictKey identifies a reported conflict by the two entries involved (not by their path text,
+// as distinct entries may share the same path) and the reason
+type conflictKey struct {
+	a, b   *RouteEntry
+	reason string
+}
+
+func addConflict(out *[]Conflict, seen map[conflictKey]bool, a *RouteEntry, b *RouteEntry, reason string) {
 	// canonical order
-	if aPath > bPath {
-		aPath, bPath = bPath, aPath
+	if a.Path > b.Path {
 		a, b = b, a
 	}
-	key := aPath + "||" + bPath + "||" + reason
+	key := conflictKey{a: a, b: b, reason: reason}
 	if seen[key] {
 		return
 	}
 	seen[key] = true
-	*out = append(*out, Conflict{A: a, B: b, Reason: reason})
+	*out = append(*out, Conflict{A: *a, B: *b, Reason: reason})
 }
 
 func inPlaceSortConflicts(conflicts []Conflict) []Conflict {
